@@ -1,6 +1,7 @@
 package sender
 
 import (
+	"fmt"
 	"io"
 	"path/filepath"
 	"strings"
@@ -47,6 +48,12 @@ func RecvFilterList(c *rsyncwire.Conn) (*filterRuleList, error) {
 		}
 		if length == exclusionListEnd {
 			break
+		}
+		// rsync/exclude.c:recv_filter_list rejects rules that do not
+		// fit into its BIGPATHBUFLEN line buffer.
+		const maxFilterLen = 4096 + 1024
+		if length < 0 || length >= maxFilterLen {
+			return nil, fmt.Errorf("overflow: invalid filter rule length %d", length)
 		}
 		line := make([]byte, length)
 		if _, err := io.ReadFull(c.Reader, line); err != nil {
